@@ -550,6 +550,28 @@ func TestFrames(t *testing.T) {
 					}
 				}
 				runStream(fr, data, c.Out, conc, rng, exh, nrand, res, "C12")
+				// the same stream with "b" standing for a run of bytes as long as (longer than) the read buffer: the decoder
+				// is defined on symbols, whatever their length - records (the unterminated last one too) spanning refills
+				if k := i / nshard; k%6 == 0 { // (by position within the shard: the cost spreads over the workers)
+					for _, n := range []int{[]int{4096, 5000, 4095, 8192}[(k/6)%4]} {
+						long := func(d []string) []byte {
+							var o []byte
+							for _, s := range d {
+								if s == "S" {
+									o = append(o, fr.sep)
+								} else if s == "b" {
+									o = append(o, bytes.Repeat([]byte{'b'}, n)...)
+								} else {
+									o = append(o, s[0])
+								}
+							}
+							return o
+						}
+						if ld := long(c.Stream); len(ld) > len(c.Stream) {
+							runStream(fr, ld, c.Out, long, rng, 0, max(1, nrand/2), res, "C12")
+						}
+					}
+				}
 			}
 		}
 		// (3) absurd lengths: the payload is shorter than declared => an error, never a crash, never a short record
